@@ -139,31 +139,7 @@ def site_of(exc):
     return "%s:%s" % (site.filename.split("/mutagen/")[-1], site.name)
 
 
-class BufferedLike(io.BytesIO):
-    """an in-memory object with the semantics of open(path, "rb+") - what mutagen works on whenever it is given a file
-    name - where they differ from io.BytesIO: read(n) with n < -1 raises ValueError instead of reading everything, and
-    truncate(n) beyond the end extends the file with zeros, and a seek to a position before the start of the file raises
-    OSError(EINVAL) (io.BytesIO raises ValueError for a negative absolute position and silently stops at 0 for relative
-    ones)"""
-
-    def seek(self, off, whence=0):
-        base = 0 if whence == 0 else self.tell() if whence == 1 else len(self.getvalue())
-        if whence in (0, 1, 2) and isinstance(off, int) and base + off < 0:
-            raise OSError(errno.EINVAL, "Invalid argument")
-        return io.BytesIO.seek(self, off, whence)
-
-    def read(self, n=-1):
-        if n is not None and n < -1:
-            raise ValueError("read length must be non-negative or -1")
-        return io.BytesIO.read(self, n)
-
-    def truncate(self, n=None):
-        size = len(self.getvalue())
-        if n is not None and n > size:
-            pos = self.tell()
-            self.seek(0, 2); self.write(b"\0" * (n - size)); self.seek(pos)
-            return n
-        return io.BytesIO.truncate(self, n)
+from fobj import BufferedLike
 
 
 def run_protocol(opener, data, File, Metadata, MutagenError, cls=io.BytesIO):
